@@ -38,7 +38,12 @@ def r_punct(v):
     return ["", "a,", "b, ", " ", "c -> d", ",", "e"][v.idx % 7]
 
 
-RFUNCS = {"none": None, "idx": r_idx, "angle": r_angle, "padded": r_padded, "punct": r_punct}
+def k_int(v):
+    """One callable used BOTH as rfunc and as sort: labels are ints whose text order is not their numeric order."""
+    return v.idx * 7 - 20
+
+
+RFUNCS = {"k_int": k_int, "none": None, "idx": r_idx, "angle": r_angle, "padded": r_padded, "punct": r_punct}
 
 
 def s_idx(v):
@@ -82,7 +87,7 @@ def s_lt_only(v):
     return Desc(v.idx % 5)
 
 
-SORTS = {"lt_only": s_lt_only, "none": None, "idx": s_idx, "neg": s_neg, "const": s_const, "mod2": s_mod2, "mixed_numbers": s_mixed_numbers,
+SORTS = {"k_int": k_int, "lt_only": s_lt_only, "none": None, "idx": s_idx, "neg": s_neg, "const": s_const, "mod2": s_mod2, "mixed_numbers": s_mixed_numbers,
          "tuple_key": s_tuple_key}
 
 
@@ -136,7 +141,12 @@ def _run_case(ctx, spec, rname, sname, cache, keep=False):
     if not isinstance(text, str):
         ctx.violation("not_a_string", f"returned {type(text).__name__}", case)
         return
-    r = rf or repr
+    r0 = rf or repr
+
+    def r(x):
+        # whatever the render function returns is formatted into the line (the documented example returns an int)
+        return f"{r0(x)}"
+
     order = sorted(members, key=sf) if sf else list(members)
     if sf and len({sf(v) for v in members}) < len(members):
         ctx.count("sort_ties")
